@@ -634,6 +634,12 @@ func (env *Env) call(e *Expr) SV {
 		return env.fail("len of %v", a.Ty)
 	case "cap":
 		a := arg(0)
+		if a.Ty != nil {
+			if _, isCh := a.Ty.Underlying().(*types.Chan); isCh {
+				theU.DeclFunc("chcap", SInt, SInt)
+				return SV{T: App("chcap", SInt, a.T), Ty: it} // buffer size fixed by make
+			}
+		}
 		return SV{T: sliceAcc(a.T, 3), Ty: it}
 	case "real":
 		return SV{T: ToReal(arg(0).T)}
@@ -1016,7 +1022,7 @@ func (env *Env) call(e *Expr) SV {
 		cenv.binds["result0"] = specBinding{Val{T: app}, rt}
 		st.add(rangeFacts(app, rt)...)
 		for _, en := range ct.Ensures {
-			if len(en.Props) > 0 && x.prop != "" && !hasProp(en.Props, x.prop) {
+			if en.inactive(x.prop) {
 				continue
 			}
 			t := cenv.eval(en.Expr)
